@@ -434,7 +434,7 @@ func init() {
 		Level: "exploration",
 		Rule: "structural-invariant monitor over the artefact of every compilation, at the quiescent point 'Parse returned': an independent decoder + CFG dataflow checker (instructions tile the code, RET last and only there, operand kinds, jump targets on boundaries, equal operand/block depth on all in-edges, slots live, depth 0 at RET) over the program's in-memory parts; " +
 			"cross-checked dynamically through the VM hook (every executed pc is a boundary, tos/blockTos equal the static values), each program also executed with flipped switch variables so that short-circuit jumps are seen taken and not taken. " +
-			"distinct = hash of code+constants; non-trivial = the program contains >= 1 jump Fixed boundary programs: > 240 locals and constants, 2600 constants (operand 2287/2288), skipped operands of 65524..65540 code bytes for and / or / and-then-or / or-chains, chains of 2..40 and/or operands. 1% of int literals are spelled without a value (2^63, 2^64, hex and octal overflow, 08, 0x); a quarter of the programs get one token damaged and their diagnostics go to a log writer that fails on some writes and recovers: whatever Parse accepts is verified. Code sizes sweeping across 4096 bytes; constant pools of 65530..65540 entries with identifiers created right there; each compiled program's code is hashed and compared again after the next compilation.",
+			"distinct = hash of code+constants; non-trivial = the program contains >= 1 jump Fixed boundary programs: > 240 locals and constants, 2600 constants (operand 2287/2288), skipped operands of 65524..65540 code bytes for and / or / and-then-or / or-chains, chains of 2..40 and/or operands. 1% of int literals are spelled without a value (2^63, 2^64, hex and octal overflow, 08, 0x); a quarter of the programs get one token damaged and their diagnostics go to a log writer that fails on some writes and recovers: whatever Parse accepts is verified. Code sizes sweeping across 4096 bytes; constant pools of 65530..65540 entries with identifiers created right there; each compiled program's code is hashed and compared again after the next compilation. Boundary programs also: scopes ending with 1..1025 live variables (alone and inside an outer scope); one to three binds whose block type is constant number 0..2300, behind and ahead of the block.",
 		Assumptions:   []string{"the opcode table of internal/bc (operand shapes, stack effects) is the documented instruction set; it is validated against the real VM by the dynamic cross-check"},
 		MinNontrivial: 500,
 		Run: func(c *core.Ctx) {
